@@ -71,6 +71,7 @@ type Interp struct {
 	deadline     int64
 	constCache   map[*ssa.Const]Value
 	fmtLenient   bool
+	lastNow      *Term
 	spec         *specCtx
 	noSpec       bool
 	simpleBlocks map[*ssa.BasicBlock]bool
@@ -645,6 +646,9 @@ func (in *Interp) visitInstr(fr *frame, instr ssa.Instruction) int {
 		if c.op == OpConst {
 			take = c.val == 1
 		} else {
+			if _, known := in.knownVal(c); !known && in.path != nil && in.initDepth == 0 && in.trySpeculate(fr, instr, c) {
+				return kJump
+			}
 			if fr.symCount == nil {
 				fr.symCount = map[ssa.Instruction]int{}
 			}
@@ -654,9 +658,6 @@ func (in *Interp) visitInstr(fr *frame, instr ssa.Instruction) int {
 				if _, known := in.knownVal(c); !known {
 					in.abort(abUnwind, fmt.Sprintf("unwinding bound %d reached at %s", in.cfg.Unwind, in.prog.Fset.Position(instr.Pos())))
 				}
-			}
-			if _, known := in.knownVal(c); !known && in.path != nil && in.initDepth == 0 && in.trySpeculate(fr, instr, c) {
-				return kJump
 			}
 			take = in.branch(c)
 		}
